@@ -1152,21 +1152,29 @@ def source_tie(chk):
             chk.broken.append({"what": "source tie einsum_equations broken: the ast rewrite does not cover the current source of an einsum-backend routine", "detail": str(e)})
         chk.checker_cmds.append("coqc on generated build/gen/C02_*/EqTie.v: source einsum equations = model equations up to renaming (Proofs/TenalgProofsEq.v)")
         chk.cov["source_derived_lemmas"]["einsum_equations"] = est
-        # third tie: the bodies of the core backend's mode_dot, multi_mode_dot, kronecker and unfolding_dot_khatri_rao, translated from the current
+        # third tie: the bodies of the core backend's mode_dot, multi_mode_dot, khatri_rao, kronecker and unfolding_dot_khatri_rao, translated from the current
         # source into Gallina (harness/props/C02_coretie.py), are proved equal to the model routines for all inputs
         from harness.props import C02_coretie
+        from concurrent.futures import ThreadPoolExecutor
+        texts = {}
         for _, routine, _, _ in C02_coretie.ROUTINES:
             thm = C02_coretie.THEOREMS[routine]
             try:
-                text = C02_coretie.generate(C.REPO, routine)
+                texts[routine] = C02_coretie.generate(C.REPO, routine)
             except C02_coretie.Untranslatable as e:
                 chk.cov["source_derived_lemmas"][thm] = "broken (untranslatable source)"
                 chk.broken.append({"what": f"source tie {thm} broken: the ast -> Gallina translator does not cover the current source of core_tenalg {routine}",
                                    "detail": str(e)})
-                continue
-            st, det = coqc(f"Core_{routine}.v", text)
+
+        def prove(routine):
+            st, det = coqc(f"Core_{routine}.v", texts[routine])
             if st == "skipped":
-                st, det = coqc(f"Core_{routine}.v", text)
+                st, det = coqc(f"Core_{routine}.v", texts[routine])
+            return routine, st, det
+        with ThreadPoolExecutor(max_workers=max(1, min(4, C.NPROC))) as ex:
+            outcomes = list(ex.map(prove, list(texts)))
+        for routine, st, det in outcomes:
+            thm = C02_coretie.THEOREMS[routine]
             chk.cov["source_derived_lemmas"][thm] = st
             if st == "failed":
                 chk.broken.append({"what": f"source-derived theorem {thm} failed: core_tenalg {routine} in the tensorly source is no longer (provably) the model routine "
@@ -1183,7 +1191,7 @@ def source_tie(chk):
         chk.cov["source_derived_lemmas"]["routing"] = "checked" if not rp else "broken"
         if rp:
             chk.broken.append({"what": "source tie routing broken: a routine of the property is not routed to the source the ties translate", "detail": rp[:6]})
-        chk.checker_cmds.append("coqc on generated build/gen/C02_*/Core_*.v: core mode_dot / multi_mode_dot / kronecker / unfolding_dot_khatri_rao source = model routine, all inputs (tensorly source -> Gallina)")
+        chk.checker_cmds.append("coqc on generated build/gen/C02_*/Core_*.v: core mode_dot / multi_mode_dot / khatri_rao / kronecker / unfolding_dot_khatri_rao (+ memory variant on valid inputs) source = model routine, all inputs (tensorly source -> Gallina)")
     finally:
         shutil.rmtree(d, ignore_errors=True)
 
